@@ -182,6 +182,10 @@ pub const FAMILIES: &[Family] = &[
         let arg: Vec<&str> = (0..w).map(|_| "{x}").collect();
         format!("#ruledef\n{{\n    gz {{x}} => asm {{ gz ({}) }}\n}}\ngz 1\n", arg.join("+"))
     } },
+    // a data directive whose value is an asm block that again holds a data directive ... (invalid from the second
+    // level on - "invalid content for `asm` block" - but it must be SAID, at every depth; capped at 20000 levels: finding
+    // the end of each block re-scans its content, and beyond that the quadratic work meets the CPU limit first)
+    Family { name: "nest-asm-in-data", nesting: true, gen: |n, _| format!("#ruledef\n{{\n    nop => 0x00\n}}\n#d8 {}asm {{ nop }}{}\n", rep("asm { #d8 ", n.min(20_000)), rep(" }", n.min(20_000))) },
 ];
 
 pub fn magnitudes() -> Vec<String> {
@@ -241,7 +245,7 @@ impl Property for C19 {
          {2^k-1, 2^k, 2^k+1 : k in 7,8,15,16,31,32,33,62,63,64,65} + 8*10^8, 6.4*10^9, -1, 0, 4*10^8, 8*10^8-1. Each case is one run of the REAL \
          binary (built with overflow checks; thorough: also the stock release build) in its own process under RLIMIT_CPU 10 s (thorough 30 s), RLIMIT_AS 4 GiB, the default 8 MiB stack. Oracle: the \
          run ends by itself with exit 0, or exit 1 with an `error:` diagnostic; death by signal, panic exit status, CPU limit, or allocation abort is a violation (for the two magnitudes inside the \
-         supported range, 4*10^8 and 8*10^8-1, only the time budget is waived: work proportional to a supported size is not a hang). Non-trivial = the magnitude is \
+         supported range, 4*10^8 and 8*10^8-1, only the time budget is waived: work proportional to a supported size is not a hang). The CPU limit, the hard kill behind it, a failed allocation and the wall clock are ONE kind of death (`resource-exhausted`: which of them a runaway process meets first depends on the load of the machine). Non-trivial = the magnitude is \
          at or beyond the documented limit of its construct (depth > 50; value >= 2^31); distinct by (family, magnitude)."
             .to_string()
     }
@@ -341,7 +345,10 @@ impl Property for C19 {
                 ctx.want_render = true;
                 ctx.render(|| json!({"family": fam.name, "magnitude": mag, "program": shown, "binary": if plain_release { "release" } else { "release with overflow checks" }}));
                 // the signature names the family and the kind of death, not the magnitude: the probe file carries the magnitude
+                // (which limit a runaway process meets first - CPU seconds, the hard kill behind them, the 4 GiB address
+                // space, the wall clock - depends on the load of the machine: one kind, "resource-exhausted")
                 let kind = o.split(' ').next().unwrap_or("").to_string();
+                let kind = if ["cpu-limit", "killed", "allocation-abort", "wall-clock-timeout"].contains(&kind.as_str()) { "resource-exhausted".to_string() } else { kind };
                 let bucket = if fam.nesting {
                     if mag.parse::<u64>().map(|d| d >= 10_000).unwrap_or(false) { "m>=10000" } else { "m<=1000" }
                 } else if mag.len() >= 10 {
